@@ -226,3 +226,116 @@ theorem sun_api_horizontal (obs : Obs ℝ) (wall : Int) (off : Option Int) :
   exact this hnd
 
 end Astral.C02Horiz
+
+namespace Astral.C02Horiz
+open Astral Real Astral.C02 Astral.C12Horiz
+
+/-- an angle of [0°, 360°) with negative sine lies strictly between 180° and 360° -/
+theorem west_of_sin_neg (A : ℝ) (h0 : 0 ≤ A) (h1 : A < 360) (hs : Real.sin (radians A) < 0) :
+    180 < A ∧ A < 360 := by
+  refine ⟨?_, h1⟩
+  by_contra hle
+  push Not at hle
+  have hp := Real.pi_pos
+  have r0 : 0 ≤ radians A := by rw [radians_eq]; positivity
+  have r1 : radians A ≤ π := by
+    rw [radians_eq]
+    have : A * (π / 180) ≤ 180 * (π / 180) := mul_le_mul_of_nonneg_right hle (by positivity)
+    have e : (180 : ℝ) * (π / 180) = π := by field_simp
+    linarith
+  have := Real.sin_nonneg_of_nonneg_of_le_pi r0 r1
+  linarith
+
+/-- an angle of [0°, 360°) with positive sine lies strictly between 0° and 180° -/
+theorem east_of_sin_pos (A : ℝ) (h0 : 0 ≤ A) (h1 : A < 360) (hs : 0 < Real.sin (radians A)) :
+    0 < A ∧ A < 180 := by
+  have hp := Real.pi_pos
+  constructor
+  · rcases eq_or_lt_of_le h0 with e | l
+    · rw [← e, radians_eq] at hs; simp at hs
+    · exact l
+  · by_contra hge
+    push Not at hge
+    have r0 : π ≤ radians A := by
+      rw [radians_eq]
+      have : 180 * (π / 180) ≤ A * (π / 180) := mul_le_mul_of_nonneg_right hge (by positivity)
+      have e : (180 : ℝ) * (π / 180) = π := by field_simp
+      linarith
+    have r1 : radians A ≤ 2 * π := by
+      rw [radians_eq]
+      have : A * (π / 180) ≤ 360 * (π / 180) := mul_le_mul_of_nonneg_right h1.le (by positivity)
+      have e : (360 : ℝ) * (π / 180) = 2 * π := by field_simp; ring
+      linarith
+    have : Real.sin (radians A) ≤ 0 := by
+      have e : Real.sin (radians A) = -Real.sin (radians A - π) := by rw [Real.sin_sub_pi]; ring
+      rw [e]
+      have := Real.sin_nonneg_of_nonneg_of_le_pi (by linarith : 0 ≤ radians A - π) (by linarith)
+      linarith
+    linarith
+
+/-- **after the meridian passage the sun is in the western half of the sky, before it in the
+    eastern half**: with the hour angle strictly between 0° and 180° the reported azimuth lies in
+    (180°, 360°); strictly between −180° and 0° it lies in (0°, 180°) — off the degenerate branch,
+    for |δ| < 90° -/
+theorem sun_side_of_meridian (lat dec ha : ℝ) (hdec : |dec| < 90)
+    (hnd : (0.001 : ℝ) < fabs (Trig.cos (radians lat)
+        * Trig.sin (radians (zenithAzimuthOf lat dec ha).1))) :
+    (0 < ha ∧ ha < 180 → 180 < (zenithAzimuthOf lat dec ha).2 ∧ (zenithAzimuthOf lat dec ha).2 < 360)
+    ∧ (-180 < ha ∧ ha < 0 → 0 < (zenithAzimuthOf lat dec ha).2 ∧ (zenithAzimuthOf lat dec ha).2 < 180) := by
+  have hp := Real.pi_pos
+  have rng := zenithAzimuthOf_range lat dec ha
+  have hz0 : 0 ≤ Real.sin (radians (zenithAzimuthOf lat dec ha).1) := by
+    apply Real.sin_nonneg_of_nonneg_of_le_pi
+    · rw [radians_eq]; exact mul_nonneg rng.1 (by positivity)
+    · rw [radians_eq]
+      have : (zenithAzimuthOf lat dec ha).1 * (π / 180) ≤ 180 * (π / 180) :=
+        mul_le_mul_of_nonneg_right rng.2.1 (by positivity)
+      have e : (180 : ℝ) * (π / 180) = π := by field_simp
+      linarith
+  have hzpos : 0 < Real.sin (radians (zenithAzimuthOf lat dec ha).1) := by
+    rcases eq_or_lt_of_le hz0 with e | l
+    · rw [fabs_eq_abs] at hnd
+      simp only [trig_cos, trig_sin] at hnd
+      rw [← e, mul_zero, abs_zero] at hnd; norm_num at hnd
+    · exact l
+  have hcd : 0 < Real.cos (radians dec) := by
+    apply Real.cos_pos_of_mem_Ioo
+    obtain ⟨a, b⟩ := abs_lt.mp hdec
+    constructor
+    · rw [radians_eq]; nlinarith
+    · rw [radians_eq]; nlinarith
+  constructor
+  · intro ⟨h0, h1⟩
+    obtain ⟨_, _, hE⟩ := sun_horizontal lat dec ha hdec.le ⟨by linarith, h1.le⟩ hnd
+    have hsH : 0 < Real.sin (radians ha) := by
+      apply Real.sin_pos_of_pos_of_lt_pi
+      · rw [radians_eq]; positivity
+      · rw [radians_eq]
+        have : ha * (π / 180) < 180 * (π / 180) := mul_lt_mul_of_pos_right h1 (by positivity)
+        have e : (180 : ℝ) * (π / 180) = π := by field_simp
+        linarith
+    have hneg : Real.sin (radians (zenithAzimuthOf lat dec ha).2) < 0 := by
+      have hy : hy (radians dec) (radians ha) < 0 := by unfold hy; nlinarith
+      by_contra hc
+      push Not at hc
+      have := mul_nonneg hzpos.le hc
+      linarith
+    exact west_of_sin_neg _ rng.2.2.1 rng.2.2.2 hneg
+  · intro ⟨h0, h1⟩
+    obtain ⟨_, _, hE⟩ := sun_horizontal lat dec ha hdec.le ⟨h0.le, by linarith⟩ hnd
+    have hsH : Real.sin (radians ha) < 0 := by
+      apply Real.sin_neg_of_neg_of_neg_pi_lt
+      · rw [radians_eq]; exact mul_neg_of_neg_of_pos h1 (by positivity)
+      · rw [radians_eq]
+        have : -180 * (π / 180) < ha * (π / 180) := mul_lt_mul_of_pos_right h0 (by positivity)
+        have e : (-180 : ℝ) * (π / 180) = -π := by field_simp
+        linarith
+    have hpos : 0 < Real.sin (radians (zenithAzimuthOf lat dec ha).2) := by
+      have hy : 0 < hy (radians dec) (radians ha) := by unfold hy; nlinarith
+      by_contra hc
+      push Not at hc
+      have := mul_nonpos_of_nonneg_of_nonpos hzpos.le hc
+      linarith
+    exact east_of_sin_pos _ rng.2.2.1 rng.2.2.2 hpos
+
+end Astral.C02Horiz
